@@ -1,6 +1,7 @@
 package vsim
 
 import (
+	"github.com/relab/hotstuff/internal/proto/hotstuffpb"
 	"fmt"
 
 	"github.com/relab/hotstuff"
@@ -97,7 +98,7 @@ func (b *byzState) highQC() hotstuff.QuorumCert {
 var byzActions = []string{
 	"honest-propose", "equivocate", "parent-not-certified", "fork-old-qc", "inflate-view", "relabel-qc", "repeated-signer-qc",
 	"newview-stale", "newview-forged-tc", "timeout-future", "timeout-foreign-sig", "timeout-garbage", "timeout-honest",
-	"syncinfo-mixed", "stale-view-propose", "rogue-forge", "double-vote", "multi-signer-vote", "vote-unknown-block", "vote-garbage", "aggqc-relabelled", "silence",
+	"syncinfo-mixed", "stale-view-propose", "rogue-forge", "content-equivocate", "double-vote", "multi-signer-vote", "vote-unknown-block", "vote-garbage", "aggqc-relabelled", "silence",
 }
 
 func (c *Cluster) byzBatch(a *Actor) *clientpb.Batch {
@@ -320,6 +321,24 @@ func (c *Cluster) ByzAct(a *Actor, which string) {
 			pv++
 		}
 		c.sendAll(a, mkProp(hotstuff.NewBlock(qc.BlockHash(), qc, c.byzBatch(a), pv, a.ID)))
+	case "content-equivocate":
+		// two blocks that differ only in how the same bytes are distributed over their commands (same parent, certificate,
+		// view, proposer and timestamp - the second one is made on the wire form): different blocks, whatever the encoding
+		client := uint32(100 + a.ID)
+		st.seq += 2
+		two, merged, _ := vk.AmbiguousBatchTwins(client, st.seq-1, CmdData(client, st.seq-1), client, st.seq, CmdData(client, st.seq))
+		tb := hotstuff.NewBlock(hq.BlockHash(), hq, two, view, a.ID)
+		tpb := hotstuffpb.BlockToProto(tb)
+		tpb.Commands = merged[c.Rng.Intn(len(merged))]
+		twin := hotstuffpb.BlockFromProto(tpb)
+		p1, p2 := mkProp(tb), mkProp(twin)
+		for _, o := range c.others(a) {
+			if c.Rng.Bool() {
+				c.enqueue(a, o, p1)
+			} else {
+				c.enqueue(a, o, p2)
+			}
+		}
 	case "rogue-forge":
 		// x*H(m) labelled with q-1 honest victims and the actor: only a verifier that accepted the rogue key takes it
 		if st.rogue == nil {
